@@ -24,6 +24,8 @@ import QV.Proofs.WriterHeader
 import QV.Proofs.WriterShapeRun
 import QV.Proofs.WriterContentDecode
 import QV.Proofs.WriterMsgRefine
+import QV.Proofs.WriterJustified
+import QV.Proofs.WriterAbsStep
 
 namespace QV.C12
 open QV QV.Writer QV.ServerSafety
@@ -482,6 +484,60 @@ theorem C12_refinement_all_modes_dns_limits (macFn : Tsig → List UInt8 → Lis
   obtain ⟨m, mac, hf, hrest⟩ := refines_all_modes macFn hmac buf limit s0 hnew mode ops ht hr ex hex
   have hsz := session_size_le macFn buf limit s0 hnew hlim mode ops hr hv m mac hf
   exact ⟨m, mac, hf, hsz, hrest hsz⟩
+
+/-! ### every failure is one the specification accepts
+
+  `checkSession` accepts a failed call only if `justified s op "err:Kind"` holds in the abstract state
+  `s` of the calls that succeeded so far. `C12_failures_justified`: whenever a public call fails with
+  `Kind` in a valid writer state, `justified` holds in every abstract state that describes that
+  writer state (`AbsNum`: same section, counts, EDNS / TSIG configuration, limit, buffer length,
+  `cur` = cursor and `reserved` = `limit − available`). Kind by kind: `Truncation` only if the
+  *uncompressed* encoding of what the call adds does not fit (for `set_edns` / `set_tsig`: the
+  reservation; for the templates: the new buffer is shorter than message + reservations);
+  `CountOverflow` only if the section count would exceed 65535; `OutOfOrder` only for a section
+  already closed; `InvalidRdata` only for RDATA the specification itself cannot read along the RFC
+  layout (`C12_spec_readable_rdata_is_accepted`); `AlreadyEdns`, `AlreadyTsig`, `NotEdns`,
+  `ExtendedRcodeOverflow`, `NotTsig`, `NotSignedTsig` exactly under their conditions; every other
+  call never fails. -/
+theorem C12_failures_justified (ss : Session) (op : Op) (a : Spec.Message.AState) (hI : I ss.w)
+    (hop : OpOK ss op) (hA : AbsNum ss.w a) (e : WriterErr) (he : (step ss op).1 = .err e) :
+    Spec.Message.justified a (Driver.toSpecOp op) (Driver.statusStr (.err e)) = true :=
+  step_justified ss op a hI hop hA e he
+
+/-- RDATA the specification can read (`givenRdata`) is RDATA `add_*_rr` accepts: the writer reports
+    `InvalidRdata` only for RDATA that is malformed for its type also by the specification's reading -/
+theorem C12_spec_readable_rdata_is_accepted (cls ty : Nat) (rd : List UInt8)
+    (h : (Spec.Message.givenRdata ty cls rd).isSome = true) : rdataOK cls ty rd = true :=
+  rdataOK_of_given cls ty rd h
+
+/-! ### the abstract state of the specification follows the writer
+
+  The walk of `checkSession` keeps an abstract state, advanced by `absOk` at every successful call.
+  `C12_fresh_writer_is_the_initial_abstract_state`, `C12_accepted_calls_are_accepted_by_the_specification`
+  and `C12_abstract_state_follows`: from a fresh writer the abstract state describes the writer state
+  (`AbsNum`) after every successful call — `absOk` never rejects a call the writer accepted, and
+  section, counts, EDNS / TSIG configuration, limit (`set_limit`, templates), reservations, buffer
+  length and mode evolve in the model exactly as the specification says. The one thing `absOk` reads
+  off the decoded message is `cur` (the end of the last item written: hypothesis `hcur`, it is the
+  cursor) and that the items exist (`AbsPre`). Together with `C12_failures_justified`: every failure
+  along the walk is justified in the abstract state the walk has reached. -/
+theorem C12_fresh_writer_is_the_initial_abstract_state (buf : Bytes) (limit : Nat) (s : State)
+    (h : Writer.new buf limit = .ok s) (m : CMode) :
+    AbsNum { s with mode := m }
+      { mode := Driver.toSpecMode m, buflen := buf.size, limit := min limit buf.size } :=
+  absNum_new buf limit s h m
+
+theorem C12_accepted_calls_are_accepted_by_the_specification (ss : Session) (op : Op)
+    (a : Spec.Message.AState) (d : Spec.Message.Decoded) (hI : I ss.w) (hA : AbsNum ss.w a)
+    (hok : (step ss op).1 = .ok ()) (hpre : AbsPre a d op) :
+    ∃ a', Spec.Message.absOk a d (Driver.toSpecOp op) = .ok a' :=
+  absOk_succeeds ss op a d hI hA hok hpre
+
+theorem C12_abstract_state_follows (ss : Session) (op : Op) (a a' : Spec.Message.AState)
+    (d : Spec.Message.Decoded) (hI : I ss.w) (hop : OpOK ss op) (hA : AbsNum ss.w a)
+    (hok : (step ss op).1 = .ok ()) (habs : Spec.Message.absOk a d (Driver.toSpecOp op) = .ok a')
+    (hcur : a'.cur = (step ss op).2.w.cursor) : AbsNum (step ss op).2.w a' :=
+  absNum_step ss op a a' d hI hop hA hok habs hcur
 
 /-! non-vacuity: a `CasePreserving` session that respects the contract, whose calls all succeed, and
     that emits two pointers (owner = QNAME; the CNAME target shares a suffix with it) — all
